@@ -144,6 +144,19 @@ where
     js!("pk", CL03PublicKey, &pk);
     js!("sk", CL03SecretKey, &sk);
     js!("commitment-key", CL03CommitmentPublicKey, &cpk);
+    // the empty spellings: a commitment key without attribute bases (None and Some(0)) and an empty base set
+    if idx % 8 == 0 {
+        for (how, k0) in [("Some(0)", catch(|| CL03CommitmentPublicKey::generate::<CS>(Some(pk.N.clone()), Some(0)))), ("None", catch(|| CL03CommitmentPublicKey::generate::<CS>(Some(pk.N.clone()), None)))] {
+            if let Ok(k0) = k0 {
+                rep.eval(ck, 1);
+                rep.class(&format!("commitment-key-with-{}-bases:{}", k0.g_bases.len(), how));
+                js!("commitment-key-without-or-default-bases", CL03CommitmentPublicKey, &k0);
+            }
+        }
+        if let Ok(b0) = catch(|| Bases::generate(&pk, 0)) {
+            js!("bases-empty", Bases, &b0);
+        }
+    }
     js!("bases", Bases, &bases);
     if let Some(s) = &kp_json {
         match serde_json::from_str::<KeyPair<CL03<CS>>>(s) {
@@ -407,7 +420,7 @@ pub fn run(ctx: &Ctx, rep: &Report) -> Meta {
     Meta {
         rule: "fresh KeyPair::<CL03<CL1024>>::generate() keys (128 quick / 640 thorough; one CL2048 key in thorough), keys assembled from pre-computed safe primes for CL1024 / CL2048 / CL3072, Bases::generate (1..8, and every count 9..=70 quick / 9..=200 thorough), commitment keys with as many bases over the issuer modulus, and over an own modulus (factors through hook H2, 1..5 and 17 / 18 / 19 bases); \
                oracle (own Miller-Rabin with 40 fixed bases + GMP, own Jacobi symbol and gcd): N = p q, p != q, p, q, (p-1)/2, (q-1)/2 prime, |p| = |q| = SECPARAM + 1 bits; b, c, a_i, h, g_i in (1, N), coprime to N, squares modulo p and q, pairwise distinct; h generates QR_N; \
-               byte round trips of pk, sk, signature and JSON round trips of pk, sk, key pair, commitment key, bases, signature (read back with from_str, from_value, from_reader, from_slice); every fourth generated key pair written with write_keypair_to_file over a longer file, then the thread's previous key pair and this one again into the same path, the file read back each time; commitment randomness of exactly ln bits; random_bits(n) of exactly n bits, rand_int(a, b) in [a, b] reaching both ends on tiny ranges, random_number(n) < n, random_prime(n) prime of n bits, random_qr a residue; \
+               byte round trips of pk, sk, signature and JSON round trips of pk, sk, key pair, commitment key, bases, signature (read back with from_str, from_value, from_reader, from_slice), including a commitment key generated with Some(0) / None attribute bases and an empty base set; every fourth generated key pair written with write_keypair_to_file over a longer file, then the thread's previous key pair and this one again into the same path, the file read back each time; commitment randomness of exactly ln bits; random_bits(n) of exactly n bits, rand_int(a, b) in [a, b] reaching both ends on tiny ranges, random_number(n) < n, random_prime(n) prime of n bits, random_qr a residue; \
                non-trivial = every generated key / parameter set / random-helper case; evaluations = judgements"
             .into(),
         assumptions: vec!["primality is probabilistic on both sides (error far below 2^-60)".into(), "CL2048 / CL3072 generate() is sampled at most once (cost: minutes)".into()],
